@@ -40,7 +40,11 @@ pub fn eval_finite_with(p: &Program, ctx: &Ctx, max_ref: usize) -> CaseInfo {
     if p.body.iter().any(|g| g.any(&|x| matches!(x, Goal::Call(..) | Goal::Closure(..)))) {
         info.class("lazily-produced-answers");
     }
-    for (name, out) in [("interleaving", &bfs), ("depth-first", &dfs)] {
+    // the same goals built with the constructor functions of the public API instead of the
+    // operators the macros expand to
+    let fn1 = crate::build::with_api_mode(1, || run::run(p, Mode::Bfs, lim));
+    let fn2 = crate::build::with_api_mode(2, || run::run(p, Mode::Dfs, lim));
+    for (name, out) in [("interleaving", &bfs), ("depth-first", &dfs), ("interleaving, goals built with Disj::from_conjunctions / Conj::from_vec", &fn1), ("depth-first, goals built with DFSDisj::new / DFSConj::new", &fn2)] {
         match oracle::compare_with_reference("C06", p, out, &reference, &u) {
             Verdict::Ok => {}
             Verdict::Skip(w) => return CaseInfo { skip: Some(w), ..info },
@@ -81,7 +85,9 @@ fn gen_infinite(s: &mut Source) -> Program {
     let mut body = vec![];
     let x = next_var;
     next_var += 1;
-    let producer: Goal = match s.weighted(&[2, 2, 3, 2, 2]) {
+    let producer: Goal = match s.weighted(&[2, 2, 3, 2, 2, 2]) {
+        // `loop { a, b }`: a body of two goals
+        5 => Goal::Anyo(vec![Goal::Call(Rel::Member, vec![q0.clone(), Term::ints(&[1, 2, 3])]), Goal::Diseq(q0.clone(), Term::Int(2))]),
         0 => Goal::Always,
         1 => Goal::Anyo(vec![Goal::Call(Rel::Member, vec![q0.clone(), Term::ints(&[1, 2])])]),
         2 => Goal::Fresh(vec![x], vec![Goal::Call(Rel::Nat, vec![Term::Var(x)]), Goal::Eq(q0.clone(), Term::cons(Term::Int(7), Term::Var(x)))]),
